@@ -62,6 +62,8 @@ pub enum Pay {
     Unique,
     /// the same bytes every time
     Dup,
+    /// 300 KB (beyond every default body limit of the web framework; several overflow pages)
+    Big,
 }
 
 #[derive(Clone, Debug, PartialEq, Eq, Hash, PartialOrd, Ord)]
@@ -74,7 +76,11 @@ pub enum AOp {
 impl AOp {
     pub fn show(&self) -> String {
         let cn = |c: &Cid| (b'A' + *c) as char;
-        let pn = |p: &Pay| if *p == Pay::Dup { ",dup" } else { "" };
+        let pn = |p: &Pay| match p {
+            Pay::Dup => ",dup",
+            Pay::Big => ",big",
+            Pay::Unique => "",
+        };
         match self {
             AOp::AddVersion { c, id, pay } => {
                 format!("AddVersion({},{}{})", cn(c), id.show(), pn(pay))
@@ -121,10 +127,10 @@ impl AOp {
         match name {
             "AddVersion" | "AddSnapshot" => {
                 let id = IdClass::parse(parts.get(1)?)?;
-                let pay = if parts.get(2).map(|s| s.as_str()) == Some("dup") {
-                    Pay::Dup
-                } else {
-                    Pay::Unique
+                let pay = match parts.get(2).map(|s| s.as_str()) {
+                    Some("dup") => Pay::Dup,
+                    Some("big") => Pay::Big,
+                    _ => Pay::Unique,
                 };
                 Some(if name == "AddVersion" {
                     AOp::AddVersion { c, id, pay }
@@ -147,6 +153,12 @@ pub fn payload_bytes(kind: &str, pay: Pay, pos: usize, c: Cid) -> Vec<u8> {
     match pay {
         Pay::Dup => DUP_BYTES.to_vec(),
         Pay::Unique => format!("{kind}-{pos}-{}", (b'A' + c) as char).into_bytes(),
+        Pay::Big => {
+            let head = format!("{kind}-{pos}-{}-big:", (b'A' + c) as char).into_bytes();
+            let mut v = head.clone();
+            v.extend((0..300_000usize).map(|i| (i % 251) as u8 ^ head[i % head.len()]));
+            v
+        }
     }
 }
 
@@ -210,6 +222,8 @@ pub struct Alphabet {
     pub snapshots: bool,
     /// AgeSnapshot targets (absolute ages, only ever increasing)
     pub ages: Vec<i64>,
+    /// also offer accepted uploads with a 300 KB payload
+    pub big_payload: bool,
 }
 
 impl Alphabet {
@@ -254,36 +268,48 @@ impl Alphabet {
         let mut out = vec![];
         for c in 0..self.n_clients {
             let ids = self.distinct_ids(model, c);
-            for (cls, sid) in &ids {
+            for (cls, _sid) in &ids {
                 out.push(AOp::AddVersion {
                     c,
                     id: cls.clone(),
                     pay: Pay::Unique,
                 });
-                let acc = model.would_accept(c, *sid).unwrap_or(true);
-                if self.dup_payload && acc {
+                // the repeated payload is offered for rejected requests too: a request that differs
+                // from an earlier accepted one only in its parent must still be judged by its parent
+                if self.dup_payload {
                     out.push(AOp::AddVersion {
                         c,
                         id: cls.clone(),
                         pay: Pay::Dup,
                     });
                 }
+                if self.big_payload && model.would_accept(c, *_sid).unwrap_or(true) {
+                    out.push(AOp::AddVersion {
+                        c,
+                        id: cls.clone(),
+                        pay: Pay::Big,
+                    });
+                }
             }
             if self.snapshots {
-                for (cls, sid) in &ids {
+                for (cls, _sid) in &ids {
                     out.push(AOp::AddSnapshot {
                         c,
                         id: cls.clone(),
                         pay: Pay::Unique,
                     });
-                    let dec = model.snapshot_decision(c, *sid);
-                    if self.dup_payload
-                        && matches!(dec, Some(SnapDecision::Replace) | Some(SnapDecision::Either))
-                    {
+                    if self.dup_payload {
                         out.push(AOp::AddSnapshot {
                             c,
                             id: cls.clone(),
                             pay: Pay::Dup,
+                        });
+                    }
+                    if self.big_payload && matches!(model.snapshot_decision(c, *_sid), Some(SnapDecision::Replace)) {
+                        out.push(AOp::AddSnapshot {
+                            c,
+                            id: cls.clone(),
+                            pay: Pay::Big,
                         });
                     }
                 }
